@@ -614,43 +614,43 @@ impl Extensions {
                 let body = ext.response.body_mut();
                 // let mut new_body = BytesMut::with_capacity(body.len() + 24 * 4);
                 let mut replacement = Vec::with_capacity(28);
-                let mut last_start = 0;
+                // where to continue looking for `nonce=`
+                let mut search_from = 0;
 
-                while let Some(occurrence) =
-                    memchr::memmem::find(&body[last_start + 1..], b"nonce=")
+                while let Some(occurrence) = body
+                    .get(search_from..)
+                    .and_then(|rest| memchr::memmem::find(rest, b"nonce="))
                 {
-                    let occurrence = occurrence + last_start + 1;
                     // +6 as that's the length of b"nonce="
-                    let rest = &body[occurrence + 6..];
-                    let first = rest.first();
-                    let end = match first {
-                        Some(b'"') => memchr::memchr(b'"', &rest[1..]),
-                        Some(b'\'') => memchr::memchr(b'\'', &rest[1..]),
-                        _ => None,
+                    // This is the position of the opening quote, if the attribute has a value in quotes.
+                    let value_start = search_from + occurrence + 6;
+                    // Only `nonce="…"` and `nonce='…'` are rewritten.
+                    // Anything else (no quote, no closing quote) is left as is.
+                    let quote = match body.get(value_start) {
+                        Some(quote @ (b'"' | b'\'')) => *quote,
+                        _ => {
+                            search_from = value_start;
+                            continue;
+                        }
                     };
-                    // we shortened the list by 1
-                    let end = end.map(|v| v + 1 + 6);
-                    if let Some(end) = end {
-                        let double = *first.unwrap() == b'"';
-                        last_start = occurrence + end;
-
-                        if double {
-                            replacement.push(b'"');
-                        } else {
-                            replacement.push(b'\'');
+                    let value_len = match memchr::memchr(quote, &body[value_start + 1..]) {
+                        Some(len) => len,
+                        None => {
+                            search_from = value_start;
+                            continue;
                         }
-                        replacement.extend_from_slice(&s);
+                    };
+                    // one past the closing quote
+                    let value_end = value_start + 1 + value_len + 1;
 
-                        if double {
-                            replacement.push(b'"');
-                        } else {
-                            replacement.push(b'\'');
-                        }
-                    } else {
-                        replacement.extend_from_slice(b"\"\"");
-                        last_start = occurrence + 6 + 2;
-                    }
-                    body.replace(occurrence + 6..last_start, &replacement);
+                    replacement.push(quote);
+                    replacement.extend_from_slice(&s);
+                    replacement.push(quote);
+
+                    // replace the old value including both its quotes
+                    body.replace(value_start..value_end, &replacement);
+                    // continue after what we inserted (the length of the body has changed)
+                    search_from = value_start + replacement.len();
                     replacement.clear();
                 }
 
